@@ -24,12 +24,13 @@ const modPath = "github.com/ChrisTrenkamp/xsel"
 // World is the loaded, type-checked, SSA-converted program under analysis plus
 // the obligations produced so far.
 type World struct {
-	RepoDir string
-	Tier    string
-	Fset    *token.FileSet
-	Pkgs    map[string]*packages.Package // keyed by path relative to the module ("" = root package, "exec", "xsel", ...)
-	Prog    *ssa.Program
-	SSA     map[string]*ssa.Package
+	RepoDir   string
+	Tier      string
+	Fset      *token.FileSet
+	Pkgs      map[string]*packages.Package // keyed by path relative to the module ("" = root package, "exec", "xsel", ...)
+	Prog      *ssa.Program
+	SSA       map[string]*ssa.Package
+	paramBind map[*ssa.Parameter]*ssa.Function
 
 	NumFuncs  int
 	NumInstrs int
@@ -281,8 +282,77 @@ func allInstrs(fn *ssa.Function, f func(ssa.Instruction)) {
 
 // staticCallee resolves the callee of a call instruction when it is static
 // (function value, closure or bound method of known function).
+// staticCallee: the function a call runs when that is known statically: a direct call, or the call of a function-valued
+// parameter of a repository function that has exactly one call site, is never used as a value, and is handed a function
+// or a function literal there (a driver such as `forEachNode(ctx, set, func(next) error {...})`: the call of the
+// parameter inside the driver runs that literal, with the driver's arguments as its parameters).
 func staticCallee(c ssa.CallInstruction) *ssa.Function {
-	return c.Common().StaticCallee()
+	if sc := c.Common().StaticCallee(); sc != nil {
+		return sc
+	}
+	cc := c.Common()
+	if cc.IsInvoke() {
+		return nil
+	}
+	if p, ok := cc.Value.(*ssa.Parameter); ok && theWorld != nil {
+		return theWorld.paramCallBinding()[p]
+	}
+	return nil
+}
+
+func (w *World) paramCallBinding() map[*ssa.Parameter]*ssa.Function {
+	if w.paramBind != nil {
+		return w.paramBind
+	}
+	w.paramBind = map[*ssa.Parameter]*ssa.Function{}
+	sites := map[*ssa.Function][]ssa.CallInstruction{}
+	asValue := map[*ssa.Function]bool{}
+	var keys []string
+	for k := range w.SSA {
+		keys = append(keys, k)
+	}
+	sort.Strings(keys)
+	for _, k := range keys {
+		w.forAllFuncs(k, func(fn *ssa.Function) {
+			allInstrs(fn, func(in ssa.Instruction) {
+				var callee *ssa.Function
+				if ci, ok := in.(ssa.CallInstruction); ok {
+					callee = ci.Common().StaticCallee()
+					if callee != nil && inRepo(callee) {
+						sites[callee] = append(sites[callee], ci)
+					}
+				}
+				for _, op := range in.Operands(nil) {
+					if f, ok := (*op).(*ssa.Function); ok && f != callee {
+						asValue[f] = true
+					}
+				}
+			})
+		})
+	}
+	for f, ss := range sites {
+		if len(ss) != 1 || asValue[f] || len(f.Blocks) == 0 {
+			continue
+		}
+		args := ss[0].Common().Args
+		for i, p := range f.Params {
+			if i >= len(args) {
+				break
+			}
+			if _, isSig := p.Type().Underlying().(*types.Signature); !isSig {
+				continue
+			}
+			switch x := args[i].(type) {
+			case *ssa.Function:
+				w.paramBind[p] = x
+			case *ssa.MakeClosure:
+				if g, ok := x.Fn.(*ssa.Function); ok {
+					w.paramBind[p] = g
+				}
+			}
+		}
+	}
+	return w.paramBind
 }
 
 // calleeName returns pkgpath.Name or (recv).Name for a static callee, "" otherwise.
